@@ -137,8 +137,7 @@ def c18(ck):
         ck.replay_stage("len3", "MC_C18", "MC_C18_quick.cfg", frames=True)
         suite_frames(ck)
         ck.replay_stage("len4", "MC_C18", "MC_C18_t4.cfg", tlc_workers=10, harness_workers=5, timeout=3000)
-        ck.model_stage("states5", "MC_C18", "MC_C18_m5.cfg", tlc_workers=12, timeout=3000)
-        ck.model_stage("states6reduced", "MC_C18", "MC_C18_m6r.cfg", tlc_workers=12, timeout=3000)
+        ck.model_stage("states5reduced", "MC_C18", "MC_C18_m5r.cfg", tlc_workers=12, timeout=3000)
         ck.replay_stage("walks6", "MC_C18", "MC_C18_sim6.cfg", tlc_workers=8, simulate=150000, depth=8,
                         seed=ck.seed, exhaustive=False, timeout=3000)
 
